@@ -382,7 +382,12 @@ def explore(body, params=None, name="", *, max_paths=20000, budget_s=None, stop_
             res.inconclusive.append(f"solver unknown: {e}")
             res.complete = False
         except Unsupported as e:
-            res.inconclusive.append(f"unsupported: {e}")
+            import os
+
+            where = ""
+            if os.environ.get("SYMEX_TRACE_UNSUPPORTED"):
+                where = " @ " + " > ".join(getattr(e, "symex_stack", []))[-400:]
+            res.inconclusive.append(f"unsupported: {e}{where}")
             res.complete = False
         except Exception as e:
             # an exception the harness did not expect.  If the real code raises the same
